@@ -59,7 +59,7 @@ def frame_input(draw, rpool, cpool, force_cols=None, force_layout=None, common=N
 def concat_cases(draw):
     # decisive choices first (late draws are pinned to their first option for a share of Hypothesis's examples)
     axis = draw(st.integers(0, 1))
-    mode = draw(st.sampled_from(['random', 'random', 'aligned', 'aligned_same_layout', 'aligned_relayout', 'disjoint_concat']))
+    mode = draw(st.sampled_from(['random', 'random', 'aligned', 'aligned_same_layout', 'aligned_relayout', 'disjoint_concat', 'empties_first']))
     ch = {'union': draw(st.booleans()), 'fill': draw(st.sampled_from(FILLS)), 'replace': draw(st.sampled_from([None, 'auto', None, 'list'])),
           'gen': draw(st.booleans()), 'form': draw(st.sampled_from(['concat', 'items', 'concat']))}
     k = draw(st.sampled_from([2, 3, 1, 4, 2, 3, 1, 4, 2, 3, 0]))  # (no input at all is the zero-sized known finding: rare)
@@ -110,6 +110,12 @@ def concat_cases(draw):
             key = 'rpos' if axis == 0 else 'cpos'
             fi[key] = [p for p in range(pool_n) if owner[p] == q]
             fi['blocks'] = draw(gen.blocks(len(fi['rpos']), len(fi['cpos']), kinds=KINDS, missing=True))
+    if mode == 'empties_first' and len(inputs) >= 3:
+        # the first two inputs carry no label on the aligned axis (e.g. zero-row frames that already have columns):
+        # the labels and cells of the later inputs must still arrive
+        for q in (0, 1):
+            inputs[q]['rpos' if axis == 1 else 'cpos'] = []
+            inputs[q]['blocks'] = draw(gen.blocks(len(inputs[q]['rpos']), len(inputs[q]['cpos']), kinds=KINDS, missing=True))
     as_series = [draw(st.booleans()) and draw(st.booleans()) for _ in inputs]
     return dict({'rpool': rpool, 'cpool': cpool, 'axis': axis, 'inputs': inputs, 'mode': mode, 'as_series': as_series}, **ch)
 
